@@ -75,4 +75,4 @@ def run_compute_tie(name, cases, observations, shard=250):
     """cases[i] with observations[i] (from impl.compute_obs).  Returns (mismatching
     indices, coq errors)."""
     terms = [coq_compute_case(c, o) for c, o in zip(cases, observations)]
-    return common.run_coq_shards(name, HEADER, terms, 'mismatches compute_ok', shard=shard)
+    return common.run_coq_shards(name, HEADER, terms, 'mismatches compute_ok', shard=shard, ctype='compute_case')
